@@ -1098,7 +1098,7 @@ fn finish_by_fresh(mut op: Op, mod_dir: &str, ok_events: &str, err_events: &str)
         op.ref_text = Some(if op.kind == OpKind::Run { "null".into() } else { String::new() });
         op.events = err_events.into();
         op.runs_tests = false;
-        op.tags.push(format!("fresh-outcome={}", out.chars().take(60).collect::<String>()));
+        op.tags.push(format!("fresh-outcome-class={}", op.expect));
     }
     op
 }
@@ -1882,6 +1882,17 @@ fn witness_f1() -> (bool, String) {
 }
 
 /// F-C07-2 witnesses: an error unwinds through an open sequence / string builder.
+/// F-C07-4 witness: a top-level `yield` leaves the chunk's frame on the call stack.
+fn witness_f4() -> (bool, String) {
+    let mut k = Koto::default();
+    let a = run_script(&mut k, "yield 1\n", "/nonexistent");
+    let s1 = k.verif_stack_sizes();
+    let b = run_script(&mut k, "throw 0\n", "/nonexistent");
+    let s2 = k.verif_stack_sizes();
+    let c = run_script(&mut k, "1 + 1\n", "/nonexistent");
+    (s1.1 != 0 || s2.1 != 0, format!("compile_and_run(\"yield 1\") = {a}, sizes {:?}; then a failing run ({b}): sizes {:?}; then 1 + 1 = {c}", s1, s2))
+}
+
 fn witness_f2() -> (bool, String) {
     let mut k = Koto::default();
     let _ = k.compile_and_run("f = ||\n  throw 'x'\n[1, f()]");
@@ -2200,6 +2211,7 @@ fn main() {
             "F-C07-1" => witness_f1(),
             "F-C07-2" => witness_f2(),
             "F-C07-3" => witness_f3(),
+            "F-C07-4" => witness_f4(),
             _ => continue,
         };
         let n = cx.attributed.get(&id).copied().unwrap_or(0);
